@@ -76,6 +76,11 @@ def all_inputs():
 
 
 def cases(tier, seed):
+    from .. import produced
+    return _cases(tier, seed) + produced.case_list()
+
+
+def _cases(tier, seed):
     out = []
     inputs = list(all_inputs())
     for i0 in range(0, len(inputs), 40):
@@ -115,6 +120,9 @@ def same_exact(R, label, op, p, q, sp, tags, redundant):
 
 
 def run_case(case, R):
+    if case.get("k") == "produced":
+        from .. import produced
+        return produced.run(R, ID, case["i0"], case["i1"])
     k = case["k"]
     if k == "pickle":
         inputs = list(all_inputs())[case["i0"]:case["i1"]]
